@@ -141,7 +141,8 @@ Definition enc_run (c : cfg) (chunks : list Z) (orc : list Z) : option (enc * li
 
 Record dec := {
   d_lW : bool; d_W : bool; d_centerW : Z; d_cur : Z; d_ret : Z; d_gran : Z; d_seq : Z;
-  d_count : Z; d_eof : bool }.
+  d_count : Z; d_eof : bool;
+  d_fresh : bool }.   (* nW == -1: a block has been added since the last lapout rearranged the buffer *)
 
 (* what blockin sees of a vorbis_block *)
 Record dblock := { k_W : bool; k_gran : Z; k_seq : Z; k_eof : bool; k_pcm : bool }.
@@ -150,11 +151,11 @@ Record dblock := { k_W : bool; k_gran : Z; k_seq : Z; k_eof : bool; k_pcm : bool
 Definition dec_restart (c : cfg) (s : dec) : dec :=
   let cw := Z.shiftr (bs1 c) (hs c + 1) in
   {| d_lW := d_lW s; d_W := d_W s; d_centerW := cw; d_cur := Z.shiftr cw (hs c); d_ret := -1;
-     d_gran := -1; d_seq := -1; d_count := -1; d_eof := false |}.
+     d_gran := -1; d_seq := -1; d_count := -1; d_eof := false; d_fresh := d_fresh s |}.
 
 Definition dec_init (c : cfg) : dec :=
   dec_restart c {| d_lW := false; d_W := false; d_centerW := 0; d_cur := 0; d_ret := 0; d_gran := 0;
-                   d_seq := 0; d_count := 0; d_eof := false |}.
+                   d_seq := 0; d_count := 0; d_eof := false; d_fresh := false |}.
 
 (* the overlap/add + copy part: new (centerW, pcm_returned, pcm_current) *)
 Definition dec_pcmpart (c : cfg) (s : dec) (b : dblock) (stp : Z) : Z * Z * Z :=
@@ -181,8 +182,7 @@ Definition trim_first (h : Z) (count1 : Z) (b : dblock) (ret1 cur1 : Z) : Z * Z 
       let extra' := if extra >? avail then avail else extra in
       (ret1, cur1 - Z.shiftr extra' h)
     else
-      let r := wrap32 (ret1 + Z.shiftr extra h) in
-      ((if r >? cur1 then cur1 else r), cur1)
+      ((if Z.shiftr extra h >? cur1 - ret1 then cur1 else ret1 + Z.shiftr extra h), cur1)
   else (ret1, cur1).
 
 (* tracked granule position g disagrees with the packet's: strip the end of a
@@ -199,7 +199,7 @@ Definition trim_tracked (h : Z) (g : Z) (b : dblock) (ret1 cur1 : Z) : Z * Z :=
 Definition dec_granule (h : Z) (gran0 count1 stp : Z) (b : dblock) (ret1 cur1 : Z) : Z * Z * Z :=
   if gran0 =? -1 then
     if negb (k_gran b =? -1) then
-      let (r, cu) := trim_first h count1 b ret1 cur1 in (k_gran b, r, cu)
+      let (r, cu) := if k_pcm b then trim_first h count1 b ret1 cur1 else (ret1, cur1) in (k_gran b, r, cu)
     else (gran0, ret1, cur1)
   else
     let g := gran0 + stp in
@@ -220,7 +220,7 @@ Definition dec_blockin (c : cfg) (s : dec) (b : dblock) : Z * dec :=
     let count1 := if count0 =? -1 then 0 else count0 + stp in
     let '(gran2, ret2, cur2) := dec_granule (hs c) gran0 count1 stp b ret1 cur1 in
     (0, {| d_lW := lW; d_W := W; d_centerW := cw; d_cur := cur2; d_ret := ret2; d_gran := gran2;
-           d_seq := k_seq b; d_count := count1; d_eof := d_eof s || k_eof b |}).
+           d_seq := k_seq b; d_count := count1; d_eof := d_eof s || k_eof b; d_fresh := true |}).
 
 Definition dec_pcmout (s : dec) : Z :=
   if (d_ret s >? -1) && (d_ret s <? d_cur s) then d_cur s - d_ret s else 0.
@@ -228,7 +228,7 @@ Definition dec_pcmout (s : dec) : Z :=
 Definition dec_read (s : dec) (n : Z) : Z * dec :=
   if negb (n =? 0) && (d_ret s + n >? d_cur s) then (-131, s)
   else (0, {| d_lW := d_lW s; d_W := d_W s; d_centerW := d_centerW s; d_cur := d_cur s; d_ret := d_ret s + n;
-              d_gran := d_gran s; d_seq := d_seq s; d_count := d_count s; d_eof := d_eof s |}).
+              d_gran := d_gran s; d_seq := d_seq s; d_count := d_count s; d_eof := d_eof s; d_fresh := d_fresh s |}).
 
 (* the application loop: blockin, then take everything pcmout offers *)
 Definition dec_step (c : cfg) (sa : dec * Z) (b : dblock) : dec * Z :=
@@ -252,6 +252,7 @@ Definition dec_lapout (c : cfg) (s : dec) : Z * dec :=
   let n0 := Z.shiftr (bs0 c) (hs c + 1) in
   let n1 := Z.shiftr (bs1 c) (hs c + 1) in
   if d_ret s <? 0 then (0, s)
+  else if negb (d_fresh s) then (n1 + n - d_ret s, s)     (* already rearranged for this block *)
   else
     let '(cur1, ret1, cw1) :=
       if d_centerW s =? n1 then (d_cur s - n1, d_ret s - n1, 0) else (d_cur s, d_ret s, d_centerW s) in
@@ -261,4 +262,4 @@ Definition dec_lapout (c : cfg) (s : dec) : Z * dec :=
       else (cur1, ret1) in
     (n1 + n - ret2,
      {| d_lW := d_lW s; d_W := d_W s; d_centerW := cw1; d_cur := cur2; d_ret := ret2; d_gran := d_gran s;
-        d_seq := d_seq s; d_count := d_count s; d_eof := d_eof s |}).
+        d_seq := d_seq s; d_count := d_count s; d_eof := d_eof s; d_fresh := false |}).
